@@ -28,6 +28,14 @@ var k3pem []byte
 //go:embed k4.key
 var k4pem []byte
 
+// k5 (2050 bits) and k6 (2047 bits): moduli whose length is not a multiple of eight bits
+//
+//go:embed k5.key
+var k5pem []byte
+
+//go:embed k6.key
+var k6pem []byte
+
 func parse(b []byte) *rsa.PrivateKey {
 	blk, _ := pem.Decode(b)
 	k, err := x509.ParsePKCS8PrivateKey(blk.Bytes)
@@ -40,19 +48,23 @@ func parse(b []byte) *rsa.PrivateKey {
 var (
 	once           sync.Once
 	k1, k2, k3, k4 *rsa.PrivateKey
+	k5, k6         *rsa.PrivateKey
 )
 
 func load() {
-	once.Do(func() { k1, k2, k3, k4 = parse(k1pem), parse(k2pem), parse(k3pem), parse(k4pem) })
+	once.Do(func() {
+		k1, k2, k3, k4 = parse(k1pem), parse(k2pem), parse(k3pem), parse(k4pem)
+		k5, k6 = parse(k5pem), parse(k6pem)
+	})
 }
 
-// K returns key n: 1,2 = RSA-2048, 3 = RSA-3072, 4 = RSA-4096.
+// K returns key n: 1,2 = RSA-2048, 3 = RSA-3072, 4 = RSA-4096, 5 = RSA-2050, 6 = RSA-2047.
 func K(n int) *rsa.PrivateKey {
 	load()
-	return []*rsa.PrivateKey{nil, k1, k2, k3, k4}[n]
+	return []*rsa.PrivateKey{nil, k1, k2, k3, k4, k5, k6}[n]
 }
 
-func PEM(n int) []byte { return [][]byte{nil, k1pem, k2pem, k3pem, k4pem}[n] }
+func PEM(n int) []byte { return [][]byte{nil, k1pem, k2pem, k3pem, k4pem, k5pem, k6pem}[n] }
 
 var (
 	NotBefore = time.Date(2020, 1, 1, 0, 0, 0, 0, time.UTC)
